@@ -312,6 +312,13 @@ func (d *Driver) runInstance(in *Instance) *InstanceResult {
 	defer ex.Close()
 	ex.NoMerge = noMerge
 	ex.Deadline = time.Now().Add(time.Duration(instanceMs) * time.Millisecond)
+	for i := range d.Known {
+		// a harness with a listed (unrepaired) finding is explored to the end, so that a different violation in
+		// the same instance is still found
+		if k := &d.Known[i]; k.Status == "known" && k.Property == d.Spec.Property && (k.Harness == "" || k.Harness == in.H.Name) {
+			ex.NoEarlyStop = true
+		}
+	}
 	if d.debug {
 		last := time.Now()
 		ex.Progress = func(e *Exec) {
